@@ -5,6 +5,7 @@ typedef struct { unsigned long len; unsigned long id; } cstring;   /* id: abstra
 static inline unsigned long cstring__size(cstring *s) { return s->len; }
 static inline _Bool cstring__eq(cstring *a, cstring *b) { return a->id == b->id && a->len == b->len; }
 static inline cstring cstring__empty(void) { cstring s; s.len = 0; s.id = 0; return s; }
+static inline void cstring__clear(cstring *s) { s->len = 0; s->id = 0; }
 unsigned long __CPROVER_uninterpreted_strid(const char *);
 static cstring g_lit;
 static inline cstring *cstring__lit(const char *p) { g_lit.len = 5; g_lit.id = __CPROVER_uninterpreted_strid(p); return &g_lit; }
